@@ -10,4 +10,6 @@ def run(chk):
     with Scratch() as sc:
         cellocc.run(chk, sc, ["Mirror", "ActiveSeparate", "Capacity", "NoEmptySurplusList", "NoUpdateError"])
         from checks import runlevel
+        from harness import ecmc_design, runs
+        ecmc_design.design_for(chk, sc, "C11", [c for c in runs.SHIPPED if "cell" in c])
         runlevel.run_for(chk, "C11", sc)
